@@ -2,7 +2,6 @@
 from plans import common
 
 PROP = "C05"
-CFG = {"quick": (2, 2), "thorough": (3, 3)}
 
 META = {
     "functions": [
@@ -11,7 +10,7 @@ META = {
     ],
     "bounds": {
         "timestamps": "full 64-bit valid stamps (exactness); stamps within one forgiveness period of a symbolic base (repair)",
-        "domain": "quick KEYS=2 NODES=2; thorough KEYS=3 NODES=3; N=2 (and N=1 for exactness)",
+        "domain": "KEYS=2 NODES=2 (all harnesses); thorough adds the exactness harnesses at KEYS=3 NODES=3; N=2 (and N=1 for exactness)",
         "exactness": "two ARBITRARY invariant-satisfying states",
         "repair": "(quick+thorough) two ARBITRARY invariant-satisfying replicas whose stamps all lie within one forgiveness period, one-directional repair, both batch orders; the pool-built two-way exchange harness did not finish and is not registered",
     },
@@ -36,10 +35,16 @@ MANIFEST = {
 
 
 def build(ws, tier, seed, mode):
-    keys, nodes = CFG[tier]
-    d, mounted, cfg = common.build_crdt_vcoll(ws, mode, ["harness_orswot_common.rs", "harness_c05.rs"], keys, nodes)
     feats = ("verif_replay",) if mode == "replay" else ()
-    return {"crates": {"crdt": {"dir": d, "features": feats}}, "mounted": mounted, "cfg": cfg}
+    d, mounted, cfg = common.build_crdt_vcoll(ws, mode, ["harness_orswot_common.rs", "harness_c05.rs"], 2, 2)
+    crates = {"crdt": {"dir": d, "features": feats}}
+    if tier == "thorough":
+        # a second, larger encoding of the same sources for the exactness harnesses only (the repair harnesses do not
+        # finish at 3 x 3)
+        d3, m3, cfg3 = common.build_crdt_vcoll(ws, mode, ["harness_orswot_common.rs", "harness_c05.rs"], 3, 3, name="crdt33", suffix="_k3")
+        crates["crdt33"] = {"dir": d3, "features": feats}
+        cfg = {"crdt": cfg, "crdt33": cfg3}
+    return {"crates": crates, "mounted": mounted, "cfg": cfg}
 
 
 def validate(ws, build, logs_dir):
@@ -47,18 +52,23 @@ def validate(ws, build, logs_dir):
 
 
 def harnesses(tier, seed):
-    def h(name, what, t=900, mem=12, covers=1):
-        return {"name": name, "crate": "crdt", "timeout_s": t, "mem_gb": mem, "min_covers": covers, "what": what, "bounds": ""}
+    def h(name, what, t=900, mem=12, covers=1, crate="crdt"):
+        return {"name": name, "crate": crate, "timeout_s": t, "mem_gb": mem, "min_covers": covers, "what": what, "bounds": ""}
     hs = [
         h("c05_diff_exact_n2", "diff lists exactly what the replica lacks (two arbitrary states)", covers=2, t=1200, mem=16),
         h("c05_diff_exact_n1", "same, single source", covers=2, t=1200, mem=16),
         h("c05_self_diff_empty_n2", "diff against itself is empty"),
-        h("c05_repair_one_item_n2", "applying any single item of A.diff(B) removes exactly that item from the difference; other keys, invariant and window condition preserved (induction step for any batch split/order)",
-          covers=2, t=1500, mem=24),
+        h("c05_repair_one_item_n2", "applying any single item of A.diff(B) removes exactly that item from the difference; other keys, invariant and "
+          "window condition preserved (induction step for any batch split/order)", covers=2, t=1500, mem=24),
     ]
     if tier == "thorough":
-        hs.append(h("c05_repair_step_n2", "A applies A.diff(B) for two arbitrary in-window states, both batch orders: nothing left to fetch, A at least as new as B on B's keys",
-          covers=2, t=3600, mem=24))
+        hs += [
+            h("c05_repair_step_n2", "A applies A.diff(B) for two arbitrary in-window states, both batch orders: nothing left to fetch, A at least as "
+              "new as B on B's keys", covers=2, t=3600, mem=24),
+            h("c05_diff_exact_n2_k3", "diff exactness at KEYS=3 NODES=3", covers=2, t=3600, mem=24, crate="crdt33"),
+            h("c05_diff_exact_n1_k3", "diff exactness at KEYS=3 NODES=3, single source", covers=2, t=3600, mem=24, crate="crdt33"),
+            h("c05_self_diff_empty_n2_k3", "self-diff empty at KEYS=3 NODES=3", t=1800, mem=16, crate="crdt33"),
+        ]
         # c05_exchange_repairs_p2 (pool-built replicas, one exchange each way) is kept in encode/harness_c05.rs but NOT
         # registered: 25 min timeout in the quick-tier formulation, out of memory at 40 GB after 8 min in the thorough one.
     return hs
